@@ -593,6 +593,7 @@ package otr3
 //@   ensures [C10.ctr.start,C04.send.ctr] result2 == nil ==> be64arr(result0.topHalfCtr) != 0
 //@   ensures [C09.disclose.next] result2 == nil ==> (result0.oldMACKeys === old(c.keys.oldMACKeys) && len(c.keys.oldMACKeys) == 0)
 //@   ensures [C18.last.flag] result2 == nil ==> c.resend.mayRetransmit == noRetransmit
+//@   ensures [C03.ctr.advance,C04.send.ctr.advance,C10.ctr.unique] result2 == nil ==> (forall i in 0..len(old(c.keys.counterHistory.counters)) :: (old(pairAt(c.keys.counterHistory, i, c.keys.ourKeyID - 1, c.keys.theirKeyID)) && old(c.keys.counterHistory.counters[i].ourCounter) < 9223372036854775807) ==> c.keys.counterHistory.counters[i].ourCounter > old(c.keys.counterHistory.counters[i].ourCounter))
 //@   ensures result2 == nil ==> (result0.y != nil && len(result0.authenticator) == 20)
 
 //@ func (*Conversation).createSerializedDataMessage
@@ -1105,3 +1106,40 @@ package otr3
 //@   modifies anything
 //@   preserves [C01.revealsigmsg.frame] c.msgState, c.theirKey, c.ake, c.version, c.sentRevealSig, c.keys.ourKeyID, c.keys.theirKeyID, c.ourCurrentKey, c.Policies, c.ake.theirPublicValue, c.ake.ourPublicValue, c.ake.secretExponent
 //@   ensures result1 == nil ==> nonglobal(result0)
+
+//@ define smpSecretTerm(a, b, ssid, secret) = nat(hashval(2, bs_cat(bs_cat(bs_cat(bs_cat(bs_cat(bs_empty(), byte1(1)), a), b), ssid), secret)))
+
+//@ func generateSMPSecret
+//@   requires v != nil
+//@   pure
+//@   ensures [C11.secret.term] result != nil && fresh(result) && val(result) == smpSecretTerm(bytes(initiatorFingerprint), bytes(recipientFingerprint), bytes(ssid), bytes(secret))
+
+//@ func (*Conversation).generateSMP1
+//@   opaque
+//@   requires c != nil
+//@   pure
+//@ func (*Conversation).generateSMP2
+//@   opaque
+//@   requires c != nil
+//@   pure
+//@ func (*DSAPublicKey).Fingerprint
+//@   opaque
+//@   requires pub != nil
+//@   pure
+//@   ensures nonglobal(result) && bytes(result) == fpterm(pub)
+
+//@ func (smpStateExpect1).startAuthenticate
+//@   requires c != nil && c.version != nil && c.ourCurrentKey != nil && c.theirKey != nil && payloadNonNil(c.theirKey)
+//@   modifies c.smp.secret, c.smp.s1, c.smp.state
+//@   ensures [C12.start.fail] err != nil ==> (c.smp.state == old(c.smp.state) && c.smp.s1 == old(c.smp.s1))
+//@   ensures [C11.start.unencrypted,C12.start.unencrypted] c.msgState != encrypted ==> (err == errCantAuthenticateWithoutEncryption && c.smp.secret == old(c.smp.secret))
+//@   ensures [C12.start.ok] err == nil ==> (isExp2(c.smp.state) && c.smp.s1 != nil && len(tlvs) == 1)
+//@   ensures [C11.secret.init.set] (c.msgState == encrypted) ==> (c.smp.secret != nil && fresh(c.smp.secret))
+//@   ensures [C11.secret.init] (c.msgState == encrypted && typeisptr(c.theirKey, DSAPublicKey)) ==> val(c.smp.secret) == smpSecretTerm(fpterm(pubref(iref(c.ourCurrentKey))), fpterm(iref(c.theirKey)), old(bytesof(c.ssid)), old(bytes(mutualSecret)))
+
+//@ func (smpStateWaitingForSecret).continueMessage1
+//@   requires c != nil && c.version != nil && c.ourCurrentKey != nil && c.theirKey != nil && payloadNonNil(c.theirKey)
+//@   modifies c.smp.secret, c.smp.s2, smplog(c)
+//@   ensures [C11.secret.resp.set] c.msgState == encrypted ==> (c.smp.secret != nil && fresh(c.smp.secret))
+//@   ensures [C11.secret.resp] (c.msgState == encrypted && typeisptr(c.theirKey, DSAPublicKey)) ==> val(c.smp.secret) == smpSecretTerm(fpterm(iref(c.theirKey)), fpterm(pubref(iref(c.ourCurrentKey))), old(bytesof(c.ssid)), old(bytes(mutualSecret)))
+//@   ensures [C12.continue.unencrypted] c.msgState != encrypted ==> (isExp1(result0) && result2 == errCantAuthenticateWithoutEncryption && c.smp.secret == old(c.smp.secret))
